@@ -1,7 +1,7 @@
 (* Properties/C01.v — ancestor sets are the exact transitive closure (C01).
    Only statements; every proof is `exact <lemma>`. *)
 From Coq Require Import Relations.
-From HpoV Require Import Gen.Consts Model.Base Model.Group Model.Onto Run.World Run.C01 Proofs.C01P Proofs.ClosureP Proofs.AcyclicP Proofs.DistP Proofs.QgoodP Model.Script Proofs.RoundTripP Proofs.AllPathsP.
+From HpoV Require Import Gen.Consts Model.Base Model.Group Model.Onto Run.World Run.C01 Proofs.C01P Proofs.ClosureP Proofs.AcyclicP Proofs.DistP Proofs.QgoodP Model.Script Proofs.RoundTripP Proofs.AllPathsP Proofs.TotalP Model.Binary Model.TermId Model.Render Proofs.RenderP.
 
 (* An observation of an ontology (per term: id, parents, children, all ancestors, as the read
    API reports them) that passes the executable statement [closure_ok] — which the check
@@ -80,6 +80,32 @@ Proof. exact run_script_qgood. Qed.
 Theorem C01_every_constructed_ontology : forall icf o, constructed icf o -> src_ok o /\ acyclic (o_arena o).
 Proof. exact constructed_structure. Qed.
 
+(* ---- the two renderings of the structure (Ontology::as_mermaid / as_graphviz, Model/Render.v; sub-check C01r) ---- *)
+
+(* the edges drawn are exactly the parent-child links *)
+Theorem C01_rendered_edges_are_the_links : forall o, src_ok o -> forall p c,
+  In (p, c) (edge_pairs o) <-> parent_rel (o_arena o) c p.
+Proof. exact edge_pairs_are_the_links. Qed.
+
+(* as_mermaid returns, and its text is the header followed, term by term in iteration order, by the
+   node label and one edge line per child in ascending id order *)
+Theorem C01_mermaid_text : forall o, src_ok o ->
+  mermaid o = Ok (s_graph_td ++ concat (map (fun t => mermaid_node t ++
+                     concat (map (fun c => show (t_id t) ++ s_arrow ++ show c ++ [NLr]) (t_children t))) (ar_terms (o_arena o)))).
+Proof. exact mermaid_text. Qed.
+
+Theorem C01_graphviz_returns : forall layout o, src_ok o -> exists txt, graphviz layout o = Ok txt.
+Proof. exact graphviz_returns. Qed.
+
+(* TOTALITY: connect_all_terms RETURNS on every graph that has a rank function decreasing along parent
+   links and staying below the fuel (it does not run out of fuel, does not panic) — with
+   C01_connect_returns_only_on_acyclic_graphs: it returns exactly on acyclic graphs; the "whenever it
+   returns" theorems above are not vacuous, whatever the size of the graph *)
+Theorem C01_connect_returns_on_ranked_graphs : forall (r : N -> nat) fuel a, wf_ar a ->
+  (forall t, In t (ar_terms a) -> t_allp t = []) -> ranked_by r a ->
+  (forall id, In id (ar_keys a) -> (r id < fuel)%nat) -> exists a', connect_all fuel a = Ok a'.
+Proof. exact connect_all_total. Qed.
+
 Print Assumptions C01_closure_exact.
 Print Assumptions C01_model_cache_is_transitive_closure.
 Print Assumptions C01_model_create_cache.
@@ -93,3 +119,7 @@ Print Assumptions C01_matrix_is_membership.
 Print Assumptions C01_connect_returns_only_on_acyclic_graphs.
 Print Assumptions C01_builder_ontologies_exact.
 Print Assumptions C01_every_constructed_ontology.
+Print Assumptions C01_rendered_edges_are_the_links.
+Print Assumptions C01_mermaid_text.
+Print Assumptions C01_graphviz_returns.
+Print Assumptions C01_connect_returns_on_ranked_graphs.
